@@ -1,0 +1,10 @@
+//go:build verif
+
+package linereader
+
+import "io"
+
+// VerifSetInput replaces the input stream lines are read from. It exists only
+// in builds with the verif tag and is used by the verification harness to
+// drive the UI from a simulated input stream.
+func VerifSetInput(in io.Reader) { r = newLineReader(in) }
